@@ -5,7 +5,7 @@ from tools import hydro
 
 class C29(C28):
     props_vo = "theories/Props/C29.vo"
-    theorems = ["C29_total_order_modelled_ir", "C29_keyed_fold_per_key", "C29_keyed_reduce_per_key",
+    theorems = ["C29_total_order_modelled_ir", "C29_enumerate_static_tickinv", "C29_keyed_fold_per_key", "C29_keyed_reduce_per_key",
                 "C29_interleaving_invariant_fold", "C29_interleaving_invariant_reduce",
                 "C29_keyed_tick_partition_modelled_ir", "C29_proj_concat",
                 "C29_repaired_typing_oracle_independent", "C29_sort_order_independent"]
